@@ -3,15 +3,17 @@
    composed with what the static handler serves for the same request (C05).  Pure function over a
    fixed capsule; TLC enumerates (rule list, request path spelling, certificate) and evaluates once.
 
-   capsule:  / {index.gmi, pub.gmi, app/ {index.gmi, secret.gmi, public/ {index.gmi, open.gmi}},
-                admin/ {index.gmi, panel.gmi}}                                                         *)
+   capsule:  / {index.gmi, pub.gmi, apple.gmi, app/ {index.gmi, secret.gmi, public/ {index.gmi, open.gmi}},
+                admin/ {index.gmi, panel.gmi}, app-x/ {index.gmi, keys.gmi}}                                                         *)
 EXTENDS Naturals, Sequences, FiniteSets, TLC
 CONSTANTS MaxSegs, SegAlphabet, RuleLists, Certs,
           DevMatchRawPath,          \* deviation: rule prefix compared with the raw URL path (str.startswith)
           DevEmptyListMeansNoList   \* deviation: configuration layer turns allowed_fingerprints = [] into "no list"
-DirPaths == { <<>>, <<"app">>, <<"app", "public">>, <<"admin">> }
-FileNames == [ d \in DirPaths |-> CASE d = <<>> -> {"index.gmi", "pub.gmi"} [] d = <<"app">> -> {"index.gmi", "secret.gmi"}
-                                   [] d = <<"app", "public">> -> {"index.gmi", "open.gmi"} [] d = <<"admin">> -> {"index.gmi", "panel.gmi"} ]
+\* "app-x" and "apple.gmi" share a name stem with "app": a rule for /app/ covers neither
+DirPaths == { <<>>, <<"app">>, <<"app", "public">>, <<"admin">>, <<"app-x">> }
+FileNames == [ d \in DirPaths |-> CASE d = <<>> -> {"index.gmi", "pub.gmi", "apple.gmi"} [] d = <<"app">> -> {"index.gmi", "secret.gmi"}
+                                   [] d = <<"app", "public">> -> {"index.gmi", "open.gmi"} [] d = <<"admin">> -> {"index.gmi", "panel.gmi"}
+                                   [] d = <<"app-x">> -> {"index.gmi", "keys.gmi"} ]
 Paths == UNION { [1..n -> SegAlphabet] : n \in 0..MaxSegs }
 NoList == [has |-> FALSE, set |-> {}]
 List(S) == [has |-> TRUE, set |-> S]
